@@ -10,6 +10,7 @@ import (
 
 	"golang.org/x/tools/go/ssa"
 
+	"verif/internal/contract"
 	"verif/internal/smt"
 )
 
@@ -69,6 +70,13 @@ func (e *Engine) nonNil(st *State, ref *smt.Term, pos token.Pos) {
 	}
 	e.safety(st, "nil-deref", smt.Ne(ref, smt.IntC(0)), pos)
 	st.nonnil[ref] = true
+}
+
+func exactProps(fc *contract.Func) []string {
+	if p := strings.Fields(fc.Opts["exactprops"]); len(p) > 0 {
+		return p
+	}
+	return []string{"SAFETY"}
 }
 
 // wrapAll: in thin safety sweeps int/int64 arithmetic on data wraps silently (Go semantics) instead of raising an obligation.
@@ -372,6 +380,15 @@ func recordRange(t types.Type, v Value) {
 
 func (e *Engine) intBinOp(st *State, op token.Token, t types.Type, x, y *smt.Term, yt types.Type, pos token.Pos) *smt.Term {
 	arith := func(r *smt.Term) *smt.Term {
+		if e.cur != nil && e.cur.fc != nil && e.cur.fc.Exact && st.fr.parent == nil && !exactInt(t) {
+			// contract marked exact: the machine value must be the mathematical value
+			lo, hi := intRange(t)
+			if l, h, ok := bounds(r); ok && l.Cmp(lo) >= 0 && h.Cmp(hi) <= 0 {
+				return r
+			}
+			e.check(st, "overflow", "exact "+e.posTag(pos), exactProps(e.cur.fc), smt.And(smt.Le(smt.BigC(lo), r), smt.Le(r, smt.BigC(hi))), pos)
+			return r
+		}
 		if exactInt(t) && !e.wrapAll() {
 			lo, hi := intRange(t)
 			if l, h, ok := bounds(r); ok && l.Cmp(lo) >= 0 && h.Cmp(hi) <= 0 {
